@@ -13,9 +13,20 @@ from sim import gen, kernel, net, reqs, world
 
 ID = 'C17'
 LEVEL = 'fault_enumeration'
-CERTS = [None] + [(ncn, eku) for ncn in (0, 1, 2)
+# subject shapes: number of distinct common names, or an explicit tuple
+# (the same name twice is still two common names)
+SHAPES = [0, 1, 2, ('cn0', 'cn0'), ('cn0', 'cn0', 'cn1')]
+CERTS = [None] + [(ncn, eku) for ncn in SHAPES
                   for eku in (None, ('server',), ('client',),
                               ('server', 'client'))]
+
+
+def names_of(shape):
+    if isinstance(shape, (tuple, list)):
+        return tuple(shape)
+    return tuple('cn%d' % i for i in range(shape))
+
+
 TLS = [True, False]
 BEHAVIOURS = ['ok', 'ok_nogroups', 'user404', 'groups404', 'down_users',
               'down_groups', 'badjson', 'disabled', 'unsupported',
@@ -31,8 +42,8 @@ BUDGET_S = {'quick': 80, 'thorough': 600}
 DETERMINISM = {'quick': 8, 'thorough': 30}
 CHUNK = 4
 EXHAUSTIVE = {'quick': True, 'thorough': True}
-RULE = ('complete product: %d certificate shapes (absent; 0/1/2 common '
-        'names x EKU absent / serverAuth only / clientAuth / both; real DER) '
+RULE = ('complete product: %d certificate shapes (absent; 0/1/2 distinct '
+        'common names, the same name twice, three names x EKU absent / serverAuth only / clientAuth / both; real DER) '
         'x enable_tls_client_auth on/off x %d plugin configurations (none, '
         'and every list of 1-2 blocks over %s) x %d requests = %d cases, all '
         'executed in every run. Non-trivial: every case (each is a distinct '
@@ -124,7 +135,7 @@ def model(cert, tls, plugins):
     """-> ('enter', user, groups) | ('refuse',) | ('unjudged',)"""
     if cert is None:
         return ('refuse',)
-    ncn, eku = cert
+    ncn, eku = len(names_of(cert[0])), cert[1]
     if tls and (eku is None or 'client' not in eku):
         return ('refuse',)
     enabled = [b for b in plugins if b not in ('disabled', 'unsupported')]
@@ -173,8 +184,7 @@ def execute(plan):
             cert, tls, plugins, rq = case_of(n)
             der = None
             if cert is not None:
-                der = net.make_certificate(
-                    tuple('cn%d' % i for i in range(cert[0])), cert[1])
+                der = net.make_certificate(names_of(cert[0]), cert[1])
             conn = net.FakeConnection(der)
             s = KmipSession(W.engine, conn, ('10.0.0.9', 1), name='c17',
                             enable_tls_client_auth=tls,
